@@ -20,7 +20,7 @@ from pathlib import Path
 PROP = "C20"
 LEVEL = "exploration"
 RULE = (
-    "temp project trees: 1-2 component dirs under BASE_DIR and 0-2 generated apps with 1-2 app_dirs, each with 4-20 files drawn "
+    "temp project trees: 1-3 component dirs under BASE_DIR (half of the multi-dir cases with a sibling named <other dir>_extra / <other dir>x) and 0-2 generated apps with 1-2 app_dirs, each with 4-20 files drawn "
     "from public / underscore- / dot-prefixed names at every level, __init__.py, non-.py files, dotted names, a directory named like "
     "a module; configured through COMPONENTS.dirs, legacy STATICFILES_DIRS (plain and tuple form) and app_dirs; suffix in {.py,.js,.css,"
     ".txt,None}; distinct by (tree, configuration, suffix); non-trivial = at least one selected and one rejected path"
@@ -70,13 +70,19 @@ def gen_files(rng, lo=4, hi=20):
 
 def gen_case(rng, idx):
     how = rng.choice(["dirs", "dirs", "staticfiles", "staticfiles-tuple", "none"])
-    ndirs = rng.choice([1, 1, 2]) if how != "none" else 0
+    ndirs = rng.choice([1, 1, 2, 2, 3]) if how != "none" else 0
     comp_dirs = [{"name": f"comps{idx}_{i}", "nested": rng.random() < 0.3, "files": gen_files(rng)} for i in range(ndirs)]
+    if ndirs >= 2 and rng.random() < 0.5:
+        # sibling directories whose path merely STARTS with another configured path (comps/ and comps_extra/): not nested,
+        # not overlapping - a character-wise prefix test would take one for a sub-directory of the other
+        j = rng.randrange(1, ndirs)
+        comp_dirs[j]["name"] = comp_dirs[0]["name"] + rng.choice(["_extra", "x", "2", "_"])
+        comp_dirs[j]["nested"] = comp_dirs[0]["nested"]
     apps = []
     for a in range(rng.choice([0, 0, 1, 2])):
-        app_dirs = rng.sample(["components", "ui"], rng.choice([1, 1, 2]))
+        app_dirs = rng.sample(["components", "ui", "ui_kit"], rng.choice([1, 1, 2, 3]))
         apps.append({"name": f"c20app{idx}_{a}", "dirs": {d: gen_files(rng, 2, 10) for d in app_dirs}, "other": gen_files(rng, 0, 3)})
-    return {"how": how, "comp_dirs": comp_dirs, "apps": apps, "suffix": rng.choice(SUFFIXES), "app_dirs_setting": ["components", "ui"] if rng.random() < 0.5 else ["components"]}
+    return {"how": how, "comp_dirs": comp_dirs, "apps": apps, "suffix": rng.choice(SUFFIXES), "app_dirs_setting": rng.choice([["components", "ui"], ["components"], ["components", "ui", "ui_kit"], ["ui_kit", "ui"]])}
 
 
 def selected(rel, suffix):
